@@ -336,44 +336,86 @@ func loadProgram(repoDir, pkgPattern, extDir string) (*Program, error) {
 	P.genSrc = hdr.String() + body
 
 	// ---- phase 2: type-check package + generated file, build SSA ----
-	genFile, err := parser.ParseFile(p0.Fset, filepath.Join(repoDir, "zz_govc_generated_verif.go"), P.genSrc, parser.ParseComments)
-	if err != nil {
-		return nil, fmt.Errorf("generated clause file does not parse: %v\n%s", err, numbered(P.genSrc))
-	}
-	files := append(append([]*ast.File{}, p0.Syntax...), genFile)
-	info := &types.Info{
-		Types:      map[ast.Expr]types.TypeAndValue{},
-		Defs:       map[*ast.Ident]types.Object{},
-		Uses:       map[*ast.Ident]types.Object{},
-		Implicits:  map[ast.Node]types.Object{},
-		Selections: map[*ast.SelectorExpr]*types.Selection{},
-		Scopes:     map[ast.Node]*types.Scope{},
-		Instances:  map[*ast.Ident]types.Instance{},
-	}
-	var terrs []string
-	tc := &types.Config{
-		Importer: importerFunc(func(path string) (*types.Package, error) {
-			if tp, ok := P.imports[path]; ok {
-				return tp, nil
+	var (
+		genFile *ast.File
+		files   []*ast.File
+		info    *types.Info
+		tpkg    *types.Package
+	)
+	for attempt := 0; ; attempt++ {
+		genFile, err = parser.ParseFile(p0.Fset, filepath.Join(repoDir, fmt.Sprintf("zz_govc_generated%d_verif.go", attempt)), P.genSrc, parser.ParseComments)
+		if err != nil {
+			return nil, fmt.Errorf("generated clause file does not parse: %v\n%s", err, numbered(P.genSrc))
+		}
+		files = append(append([]*ast.File{}, p0.Syntax...), genFile)
+		info = &types.Info{
+			Types:      map[ast.Expr]types.TypeAndValue{},
+			Defs:       map[*ast.Ident]types.Object{},
+			Uses:       map[*ast.Ident]types.Object{},
+			Implicits:  map[ast.Node]types.Object{},
+			Selections: map[*ast.SelectorExpr]*types.Selection{},
+			Scopes:     map[ast.Node]*types.Scope{},
+			Instances:  map[*ast.Ident]types.Instance{},
+		}
+		var terrs []types.Error
+		tc := &types.Config{
+			Importer: importerFunc(func(path string) (*types.Package, error) {
+				if tp, ok := P.imports[path]; ok {
+					return tp, nil
+				}
+				if path == "unsafe" {
+					return types.Unsafe, nil
+				}
+				// a package not imported by the repository package: load it on demand
+				extra, err := packages.Load(cfg, path)
+				if err != nil || len(extra) != 1 || extra[0].Types == nil {
+					return nil, fmt.Errorf("cannot import %q", path)
+				}
+				visit(extra[0].Types)
+				return extra[0].Types, nil
+			}),
+			Sizes: p0.TypesSizes,
+			Error: func(err error) {
+				if te, ok := err.(types.Error); ok {
+					terrs = append(terrs, te)
+				}
+			},
+		}
+		tpkg, _ = tc.Check(p0.PkgPath, p0.Fset, files, info)
+		if len(terrs) == 0 {
+			break
+		}
+		// A clause that no longer type-checks against the code (a local it mentions was renamed, a
+		// field changed its type, ...) breaks only the contract it belongs to: neutralise the clause,
+		// remember why, and try again. Errors anywhere else are fatal.
+		lines := strings.Split(P.genSrc, "\n")
+		fixed := 0
+		var msgs []string
+		for _, te := range terrs {
+			pos := te.Fset.Position(te.Pos)
+			msgs = append(msgs, fmt.Sprintf("%s:%d: %s", shortFile(pos.Filename), pos.Line, te.Msg))
+			if !strings.Contains(pos.Filename, "zz_govc_generated") || pos.Line < 1 || pos.Line > len(lines) {
+				continue
 			}
-			if path == "unsafe" {
-				return types.Unsafe, nil
+			l := lines[pos.Line-1]
+			if !strings.HasPrefix(l, "func Gv") {
+				continue
 			}
-			// a package not imported by the repository package: load it on demand
-			extra, err := packages.Load(cfg, path)
-			if err != nil || len(extra) != 1 || extra[0].Types == nil {
-				return nil, fmt.Errorf("cannot import %q", path)
+			name := l[len("func "):strings.Index(l, "(")]
+			cl := P.genMap[name]
+			if cl == nil || cl.Broken != "" {
+				continue
 			}
-			visit(extra[0].Types)
-			return extra[0].Types, nil
-		}),
-		Sizes: p0.TypesSizes,
-		Error: func(err error) { terrs = append(terrs, err.Error()) },
-	}
-	tpkg, _ := tc.Check(p0.PkgPath, p0.Fset, files, info)
-	if len(terrs) > 0 {
-		msg := strings.Join(terrs, "\n  ")
-		return nil, fmt.Errorf("type errors (contracts?):\n  %s\n%s", msg, clauseHints(P, terrs))
+			cl.Broken = te.Msg
+			if i := strings.Index(l, ") bool { return "); i >= 0 {
+				lines[pos.Line-1] = l[:i] + ") bool { return true }"
+				fixed++
+			}
+		}
+		if fixed == 0 || attempt >= 3 {
+			return nil, fmt.Errorf("type errors (contracts?):\n  %s\n%s", strings.Join(msgs, "\n  "), "")
+		}
+		P.genSrc = strings.Join(lines, "\n")
 	}
 	P.tpkg, P.info, P.files = tpkg, info, files
 
